@@ -17,8 +17,74 @@ type probe struct {
 	also    []string
 	src     string
 	esm     bool   // uses import/export syntax (not usable with format cjs/iife through Transform of a script)
-	loader  string // "" = js, "ts"
+	loader  string // "" = js, "ts", "jsx", "tsx"
 	noKeep  bool   // P3 (supported:true keeps the syntax) not applicable
+	jsx     string // JSX mode for loader jsx/tsx ("" = classic transform)
+	keep    bool   // keep-names
+	tsconf  string // TsconfigRaw
+	format  string // output format the construct needs to show up
+}
+
+func (p *probe) apply(c *cfg) {
+	c.Loader, c.JSX, c.Tsconfig = p.loader, p.jsx, p.tsconf
+	if p.keep {
+		c.KeepNames = true
+	}
+	if p.format != "" && c.Format == "" {
+		c.Format = p.format
+	}
+}
+
+// JSX elements are not a compat feature, but their translation writes an object
+// literal for the props: a spread attribute or spread child becomes an object
+// spread (ObjectRestSpread), lowered by lowerObjectSpread in every JSX mode.
+var jsxSources = []struct{ name, src string }{
+	{"spread-only", "x = <div {...props} />"},
+	{"spread-first", "x = <div {...props} a=\"1\" b={c} />"},
+	{"spread-last", "x = <div a=\"1\" {...props} />"},
+	{"spread-middle", "x = <div a {...p} b {...q}>text{child}</div>"},
+	{"key-before-spread", "x = <div key={k} {...props} />"},
+	{"key-after-spread", "x = <div {...props} key={k} />"},
+	{"children-spread", "x = <ul {...p}>{...items}<li {...q} /></ul>"},
+	{"fragment", "x = <><a {...p} /><b.c.d {...q}>{y}</b.c.d></>"},
+	{"member-tag", "x = <ns.Comp {...f()} {...g(...h)} a={{...i}} />"},
+	{"call-spread", "x = <Comp {...make(1)} on={() => <i {...p} />}>{[1].map(n => <b key={n} {...p} />)}</Comp>"},
+}
+
+func init() {
+	for _, mode := range []string{"", "automatic", "automatic-dev", "preserve"} {
+		for _, s := range jsxSources {
+			for _, loader := range []string{"jsx", "tsx"} {
+				if loader == "tsx" && s.name != "spread-only" && s.name != "key-after-spread" && s.name != "children-spread" {
+					continue
+				}
+				name := "jsx-" + s.name + "-" + loader
+				if mode != "" {
+					name += "-" + mode
+				}
+				also := []string{"Arrow", "ArraySpread"}
+				probes = append(probes, probe{name: name, feature: "ObjectRestSpread", also: also, src: s.src, loader: loader, jsx: mode,
+					noKeep: true, esm: mode == "automatic" || mode == "automatic-dev"})
+			}
+		}
+	}
+	// generated code that only appears in particular modes
+	probes = append(probes,
+		probe{name: "keep-names-fn", feature: "Arrow", keep: true, noKeep: true, src: "function f() {}\nx = function () {}; y = () => {}; z = async () => {}; var { a = function () {} } = o; f()", also: []string{"AsyncAwait", "Destructuring", "DefaultArgument"}},
+		probe{name: "keep-names-class", feature: "ClassStaticBlocks", keep: true, noKeep: true, src: "class C { static x = 1; m() {} static { C.y = 2 } #p = 1 }\nx = class { static z = class {} }; y = class D extends C { f = () => {} }; new C", also: []string{"Class", "ClassStaticField", "ClassField", "ClassPrivateField", "Arrow"}},
+		probe{name: "keep-names-ts-class", feature: "ClassStaticField", keep: true, noKeep: true, loader: "ts", src: "class C { static x = 1; constructor(public p = 1) {} }\nexport default class { static y = C.x }", also: []string{"Class", "DefaultArgument"}, esm: true},
+		probe{name: "ts-exp-decorators", feature: "Class", loader: "ts", noKeep: true, tsconf: `{"compilerOptions":{"experimentalDecorators":true}}`, src: "@dec class C { @dec m(@dec p: number) {} @dec f = 1; @dec static s = 2; #q = 3 }\nnew C", also: []string{"Decorators", "ClassField", "ClassStaticField", "ClassPrivateField"}},
+		probe{name: "ts-no-define-fields", feature: "ClassField", loader: "ts", noKeep: true, tsconf: `{"compilerOptions":{"useDefineForClassFields":false}}`, src: "class C extends D { f = 1; static s = 2; declare g: number; constructor(public h: number) { super() } static { C.s++ } }\nnew C(1)", also: []string{"Class", "ClassStaticField", "ClassStaticBlocks"}},
+		probe{name: "ts-enum-namespace-merge", feature: "ExponentOperator", loader: "ts", noKeep: true, src: "export enum E { A = 1 << 2, B = `a${A}`.length ** 2 }\nexport namespace E { export const f = (x?: E) => x ?? E.A; export namespace N { export let g = E?.A } }\nconst enum K { Z = 1n as any }", also: []string{"TemplateLiteral", "NullishCoalescing", "OptionalChain", "ConstAndLet", "Arrow", "Bigint"}, esm: true},
+		probe{name: "tagged-template-script", feature: "TemplateLiteral", noKeep: true, src: "x = tag`<script></script>${a}`; y = String.raw`\\u{1F600}${b}`; z = tag`\\unicode`"},
+		probe{name: "import-meta-cjs", feature: "ImportMeta", noKeep: true, format: "cjs", src: "x = import.meta.url; y = import.meta.env?.MODE ?? 1", also: []string{"OptionalChain", "NullishCoalescing"}, esm: true},
+		probe{name: "import-meta-iife", feature: "ImportMeta", noKeep: true, format: "iife", src: "export const x = import.meta.url", esm: true},
+		probe{name: "dyn-import-cjs", feature: "DynamicImport", noKeep: true, format: "cjs", src: "export const x = () => import('./other.js'); import(y).then(z => z?.default)", also: []string{"Arrow", "OptionalChain"}, esm: true},
+		probe{name: "dyn-import-iife", feature: "DynamicImport", noKeep: true, format: "iife", src: "x = import('./other.js')"},
+		probe{name: "tla-esm-bundle", feature: "TopLevelAwait", noKeep: true, format: "esm", src: "export const v = await f(); for await (const q of g()) h(q)", also: []string{"AsyncAwait", "ForAwait", "ForOf", "ConstAndLet"}, esm: true},
+		probe{name: "await-using-top", feature: "Using", noKeep: true, format: "esm", src: "await using r = f(); using s = g(); export { r, s }", also: []string{"TopLevelAwait", "AsyncAwait"}, esm: true},
+		probe{name: "using-in-switch-class", feature: "Using", noKeep: true, src: "switch (a) { case 1: { using r = f(); break } }\nclass C { static { using s = g() } async *m() { await using t = h(); yield t } }\nnew C", also: []string{"Class", "ClassStaticBlocks", "AsyncGenerator", "AsyncAwait", "Generator"}},
+	)
 }
 
 var probes = []probe{
@@ -227,18 +293,21 @@ func genCombo(r *Rng) string {
 
 func selfTest(st *Stats) {
 	for _, p := range probes {
+		if p.loader == "jsx" || p.loader == "tsx" {
+			continue // not plain JavaScript: the detector reads outputs, not JSX sources
+		}
 		d := Detect(p.src)
 		st.Note("detector-selftest", p.name, true)
 		want := append([]string{p.feature}, p.also...)
 		for _, f := range want {
 			if _, known := detectable[f]; known && !contains(d, f) {
-				failOnce(st, "detector-selftest", map[string]interface{}{"probe": p.name, "source": p.src, "scenario": "harness-self-test"}, d, "detector sees "+f)
+				failOnce(st, "detector-selftest", map[string]interface{}{"probe": p.name, "source": p.src, "scenario": "harness-self-test:" + p.name}, d, "detector sees "+f)
 			}
 		}
 		// nothing newer than ES2015 may be reported that the probe does not declare
 		for _, f := range d {
 			if e := ecmaEdition[f]; (e > 2015 || e == 0) && !contains(want, f) {
-				failOnce(st, "detector-selftest", map[string]interface{}{"probe": p.name, "source": p.src, "scenario": "harness-self-test"}, d, "detector does not report "+f)
+				failOnce(st, "detector-selftest", map[string]interface{}{"probe": p.name, "source": p.src, "scenario": "harness-self-test:" + p.name}, d, "detector does not report "+f)
 			}
 		}
 	}
@@ -416,7 +485,8 @@ func glue(r *Rng, st *Stats, cf *CoqFile, n int, tier string) {
 			if t.name == "es5" {
 				continue
 			}
-			c := &cfg{Loader: p.loader}
+			c := &cfg{}
+			p.apply(c)
 			c.setTarget(t.name)
 			runOne("probe-transform", p.src, p.esm, c, p)
 		}
@@ -428,10 +498,12 @@ func glue(r *Rng, st *Stats, cf *CoqFile, n int, tier string) {
 		if !ok {
 			continue
 		}
-		c := &cfg{Loader: p.loader, Supported: map[string]bool{key: false}}
+		c := &cfg{Supported: map[string]bool{key: false}}
+		p.apply(c)
 		c.setTarget("esnext")
 		runOne("probe-supported-false", p.src, p.esm, c, p)
-		c = &cfg{Loader: p.loader, Supported: map[string]bool{key: true}}
+		c = &cfg{Supported: map[string]bool{key: true}}
+		p.apply(c)
 		c.setTarget("es2015")
 		c.makeCoherent()
 		runOne("probe-supported-true", p.src, p.esm, c, p)
@@ -442,11 +514,11 @@ func glue(r *Rng, st *Stats, cf *CoqFile, n int, tier string) {
 	for i := 0; i < count; i++ {
 		p := &probes[r.Intn(len(probes))]
 		c := randomConfig(r, false)
-		c.Loader = p.loader
 		c.Minify = r.Chance(40)
 		c.KeepNames = r.Chance(15)
 		c.Bundle = r.Chance(35)
 		c.Format = formats[r.Intn(len(formats))]
+		p.apply(c)
 		if c.Bundle && c.Format == "" {
 			c.Format = "esm"
 		}
